@@ -444,7 +444,13 @@ type Store struct {
 	numNoops                 atomic.Uint64
 	numSnapshots             atomic.Uint64
 	numSnapshotsSkipped      atomic.Uint64
-	numSnapshotsStart        atomic.Uint64
+
+	// dbSwapGen counts the times the Store has replaced the SQLite database with another
+	// one through a load or a boot. A snapshot that was created before such a swap, but is
+	// persisted after it, must not leave the Store believing an incremental snapshot can
+	// come next.
+	dbSwapGen         atomic.Uint64
+	numSnapshotsStart atomic.Uint64
 }
 
 // Config represents the configuration of the underlying Store.
@@ -2042,6 +2048,8 @@ func (s *Store) ReadFrom(r io.Reader) (int64, error) {
 		return n, fmt.Errorf("error swapping database file: %v", err)
 	}
 
+	s.dbSwapGen.Add(1)
+
 	// Swapping in a new database unregisters any registered CDC hooks, so signal that it
 	// needs to be reregistered on the next change.
 	s.cdcRegistered.Unset()
@@ -2629,6 +2637,7 @@ func (s *Store) fsmApply(l *raft.Log) (e any) {
 	case proto.Command_COMMAND_TYPE_NOOP:
 		s.numNoops.Add(1)
 	case proto.Command_COMMAND_TYPE_LOAD:
+		s.dbSwapGen.Add(1)
 		// Swapping in a new database invalidates any existing snapshot.
 		if err := s.snapshotStore.SetDueNext(snapshot.Full); err != nil {
 			s.logger.Fatalf("failed to set full snapshot needed: %s", err)
@@ -2712,6 +2721,7 @@ func (s *Store) fsmSnapshot() (fSnap raft.FSMSnapshot, retErr error) {
 	if err != nil {
 		return nil, err
 	}
+	swapGen := s.dbSwapGen.Load()
 	defer func() {
 		s.numSnapshots.Add(1)
 	}()
@@ -2819,6 +2829,15 @@ func (s *Store) fsmSnapshot() (fSnap raft.FSMSnapshot, retErr error) {
 		Type:        dueNext,
 		FSMSnapshot: fsmSnapshot,
 		OnRelease: func(invoked, succeeded bool) {
+			if s.dbSwapGen.Load() != swapGen {
+				// The database was replaced by a load or a boot after this snapshot was created.
+				// If the snapshot was persisted, closing its sink has just declared that an
+				// incremental snapshot can come next, wiping out the request for a full snapshot
+				// made by the load. This snapshot is of the old database, so ask again.
+				if err := s.snapshotStore.SetDueNext(snapshot.Full); err != nil {
+					s.logger.Fatalf("failed to set full needed after database swap during snapshot: %s", err)
+				}
+			}
 			if !invoked {
 				s.logger.Printf("persisting %s snapshot was not invoked on node ID %s", dueNext, s.raftID)
 				// The WAL staging directory, if it has anything, will not have changed, so the WAL files
